@@ -1,17 +1,17 @@
 (* C13 -- static priority always serves the highest-priority backlogged flow.
    Only statements, closed by the lemma that proves them, and their assumptions.
-   Model: Elem/SchedBase.v + Elem/SP.v (the repaired onl/scheduler/sp.py); sp_run r tbl acts = Some (s, tr) says that
+   Model: Elem/SchedBase.v + Elem/SP.v (the repaired onl/scheduler/sp.py); sp_run r cm fl tbl acts = Some (s, tr) says that
    acts is an admissible execution (any interleaving of put() calls and kernel steps) from the initial state. *)
 From Coq Require Import ZArith QArith List.
 From ONL Require Import Elem.Packet Elem.StoreQ Elem.SchedBase Elem.SchedBaseProofs Elem.SP Elem.SPProofs.
 Import ListNotations.
 
-(* Whenever run() takes a packet of flow f out of its queue (the scheduler commits to it: OVisit f true), every flow g
+(* Whenever run() takes a packet out of the queue of class f (the scheduler commits to it: OVisit f true), every class g
    with a strictly larger priority value holds nothing -- neither in its store nor in a granted get -- and the clock
-   does not move in this action.  For all rates > 0, all priority tables (a dict: distinct flows), all executions. *)
-Theorem C13_sp_strict : forall r tbl acts s tr a s' o f g,
+   does not move in this action.  For all rates > 0, all class maps, all priority tables, all executions. *)
+Theorem C13_sp_strict : forall r cm fl tbl acts s tr a s' o f g,
   0 < r -> NoDup (map fst tbl) ->
-  sp_run r tbl acts = Some (s, tr) -> sp_act r tbl s a = Some (s', o) ->
+  sp_run r cm fl tbl acts = Some (s, tr) -> sp_act r cm fl tbl s a = Some (s', o) ->
   In (OVisit f true) o -> higher tbl f g ->
   sq_held (mstores s' g) = [] /\ items (mstores s g) = [] /\ (exists rem, mpc s' = PGet f rem) /\ mnow s' = mnow s.
 Proof. exact sp_strict_run. Qed.
@@ -19,31 +19,31 @@ Print Assumptions C13_sp_strict.
 
 (* When the transmission timer of the committed packet p starts (two kernel steps later), every packet a flow of
    higher priority holds was put at this very instant, i.e. after the commit: nothing that waited before is overtaken. *)
-Theorem C13_sp_strict_at_start : forall r tbl acts s tr s' o p g,
+Theorem C13_sp_strict_at_start : forall r cm fl tbl acts s tr s' o p g,
   0 < r -> NoDup (map fst tbl) ->
-  sp_run r tbl acts = Some (s, tr) -> sp_act r tbl s SChildInit = Some (s', o) ->
-  In (OStart p) o -> higher tbl (flow p) g -> Forall (fun x => fst x = mnow s) (sq_held (mstores s g)).
+  sp_run r cm fl tbl acts = Some (s, tr) -> sp_act r cm fl tbl s SChildInit = Some (s', o) ->
+  In (OStart p) o -> higher tbl (cm (flow p)) g -> Forall (fun x => fst x = mnow s) (sq_held (mstores s g)).
 Proof. exact sp_strict_at_start_run. Qed.
 Print Assumptions C13_sp_strict_at_start.
 
 (* Between the commit and the start of the timer the clock cannot move. *)
-Theorem C13_sp_commit_same_instant : forall r tbl acts s tr f t,
-  0 < r -> sp_run r tbl acts = Some (s, tr) -> committed s f -> sp_act r tbl s (SAdvance t) = None.
+Theorem C13_sp_commit_same_instant : forall r cm fl tbl acts s tr f t,
+  0 < r -> sp_run r cm fl tbl acts = Some (s, tr) -> committed (sp_cfg true r cm fl tbl) s f -> sp_act r cm fl tbl s (SAdvance t) = None.
 Proof. exact sp_commit_same_instant_run. Qed.
 Print Assumptions C13_sp_commit_same_instant.
 
 (* Non-preemptive: along every execution transmissions start only when none is in progress, each ends exactly
    8*size/rate after its start with the forwarding of the very packet started, and no other action ends it. *)
-Theorem C13_sp_non_preemptive : forall r tbl acts s tr,
-  0 < r -> sp_run r tbl acts = Some (s, tr) -> tx_wf (sp_cfg true r tbl) None tr.
+Theorem C13_sp_non_preemptive : forall r cm fl tbl acts s tr,
+  0 < r -> sp_run r cm fl tbl acts = Some (s, tr) -> tx_wf (sp_cfg true r cm fl tbl) None tr.
 Proof. exact sp_non_preemptive. Qed.
 Print Assumptions C13_sp_non_preemptive.
 
 (* The run() loop of the pinned commit (one packet per class per pass, no rescan) violates strictness. *)
 Theorem C13_sp_strict_refuted_before_fix :
-  exists r tbl acts s tr a s' o f g,
+  exists r cm fl tbl acts s tr a s' o f g,
     0 < r /\ NoDup (map fst tbl) /\ (forall f p, In (f, p) tbl -> (0 < p)%Z) /\
-    sp_run_unfixed r tbl acts = Some (s, tr) /\ mq_act (sp_cfg false r tbl) s a = Some (s', o) /\
+    sp_run_unfixed r cm fl tbl acts = Some (s, tr) /\ mq_act (sp_cfg false r cm fl tbl) s a = Some (s', o) /\
     In (OVisit f true) o /\ higher tbl f g /\ items (mstores s g) <> [].
 Proof. exact sp_strict_refuted_unfixed. Qed.
 Print Assumptions C13_sp_strict_refuted_before_fix.
